@@ -103,6 +103,28 @@ def rule_pause(ctx, rep):
         rep.touch(a)
         clr = [e.inst for e in pat.accesses(a, "call_rcu_data.flags", ("rmw",)) if e.rop == "and" and (ir.const_of(a, e.val) & FLG.PAUSE) == 0]
         rep.check(bool(clr), "C16.pause", fl + ".parent.clears-PAUSE", "parent clears PAUSE", "after_fork_parent never clears PAUSE: helpers stay paused forever", [a.name])
+        if clr:
+            # PAUSED is the helper's acknowledgement: only the helper clears it (after it has re-registered).  The parent clears exactly PAUSE and
+            # returns only once every helper has dropped PAUSED, so that a following before_fork() cannot take a stale PAUSED for a fresh acknowledgement
+            steals = [c for c in clr if (ir.const_of(a, pat.accesses(a, "call_rcu_data.flags", ("rmw",), pred=lambda e, c=c: e.inst is c)[0].val) & FLG.PAUSED) == 0]
+            rep.check(not steals, "C16.pause", fl + ".parent.leaves-PAUSED-to-helper", "the parent's mask clears PAUSE and keeps PAUSED", "after_fork_parent clears PAUSED on the helper's behalf: the acknowledgement bit no longer says "
+                      "whether the helper is still parked, and the wait for the helper to leave the paused state is void", [c.where() for c in steals])
+            pz = [(t, s_, at) for t, s_, at in pat.branch_edges_on(a, lambda at: at[0] in ("eq", "ne") and at[2] == ("c", 0) and at[1][0] == "bin" and at[1][1] == "and" and at[1][3] == ("c", FLG.PAUSED)
+                                                                  and pat.is_load_expr(at[1][2], "call_rcu_data.flags"))]
+            stay = [(t, s_) for t, s_, at in pz if at[0] == "ne"]
+            cyc = [c for c in a.sccs() if any(t.blk.id in c and s_ in c for t, s_ in stay)]
+            if not pz:
+                rep.bad("C16.pause", fl + ".parent.waits-unPAUSED", "after_fork_parent returns without waiting for the helpers to leave the paused state: a before_fork() that follows at once sees the old PAUSED "
+                        "and lets fork() proceed while a helper is running (registered as reader, possibly holding locks) - the child inherits that state", [clr[0].where()])
+            elif not cyc:
+                rep.unk("C16.pause", fl + ".parent.waits-unPAUSED", "PAUSED is tested in after_fork_parent but not by a loop this rule recognises")
+            else:
+                rep.ok("C16.pause", fl + ".parent.waits-unPAUSED", "after_fork_parent loops until each helper has cleared PAUSED")
+                lds = [i for i in a.all_insts() if i.op == "load" and i.blk.id in cyc[0] and pat.field_of(i) and pat.field_of(i).endswith("call_rcu_data.flags")]
+                if lds:
+                    # (the two list walks are correlated through the list, so a path rule would see the infeasible "first walk empty, second not")
+                    rep.check(not all(a.dominates(lds[0], c) for c in clr), "C16.pause", fl + ".parent.clear≺wait", "PAUSE is cleared before the parent waits for PAUSED to drop",
+                              "after_fork_parent waits for PAUSED to drop before it has cleared PAUSE: the helper only leaves the paused state once PAUSE is cleared, so the wait never ends", [lds[0].where()])
     m = ctx.mod("cds", "flat")
     w = m.fn("workqueue_thread")
     if w is None:
